@@ -41,8 +41,13 @@ RULES = {
     "R9": "what is done for every element is done inside the loop over them (shared rule S17): in the IR core, the graph containers, the "
     "linked list and the convenience rewriters, no statement after a `for` loop reads the loop's variable - a detach / unregister / "
     "unlink call one indent level out runs for the last element only and leaves the links of the others half-updated",
+    "R10": "the readers answer from the link the writers maintain: the graph collections record the owner of an input, output or "
+    "initializer in `Value._graph`, and `Value.graph` reports that link whenever it is set - any other answer (the graph of the "
+    "producing node) is given only when `_graph` is None; with the producer's graph first, an output of graph B whose producer lives in "
+    "graph A reports A as its graph while it is listed in B.outputs and not in A.outputs (`is_graph_output()` and `graph` contradict "
+    "the lists)",
 }
-FLOORS = {"R1": 30, "R1b": 4, "R2": 70, "R3": 10, "R4": 4, "R5": 8, "R6": 40, "R7": 12, "R8": 1, "R9": 40}
+FLOORS = {"R1": 30, "R1b": 4, "R2": 70, "R3": 10, "R4": 4, "R5": 8, "R6": 40, "R7": 12, "R8": 1, "R9": 40, "R10": 1}
 EXPLANATION = (
     "Enumerates every method of collections.UserList/UserDict (parsed from the interpreter's own "
     "source) that writes self.data and checks how GraphInputs/GraphOutputs/GraphInitializers resolve "
@@ -1152,8 +1157,52 @@ def rule_r8(ctx):
     ctx.require(n >= 1, "no validate-then-link loop pair found (Node._create_outputs expected)")
 
 
+def rule_r10(ctx):
+    k = ctx.repo.cls("onnx_ir._core:Value")
+    g = (k.props.get("graph") or {}).get("get")
+    ctx.require(g is not None, "Value.graph getter not found")
+    me = g.params[0]
+    link = f"{me}._graph"
+    n = 0
+    for r in (x for x in own_nodes(g.node) if isinstance(x, ast.Return)):
+        v = r.value
+        if v is None or (isinstance(v, ast.Constant) and v.value is None) or norm(v) == link:
+            continue
+        # `link if link is not None else …` / `link or …`
+        if isinstance(v, ast.IfExp) and norm(v.body) == link and norm(v.test) == f"{link} is not None":
+            continue
+        if isinstance(v, ast.BoolOp) and isinstance(v.op, ast.Or) and norm(v.values[0]) == link:
+            continue
+        n += 1
+        governed = False
+        child, par = r, getattr(r, "_parent", None)
+        while par is not None:
+            for fld in ("body", "orelse"):
+                blk = getattr(par, fld, None)
+                if isinstance(blk, list) and child in blk:
+                    for prev in blk[: blk.index(child)]:
+                        if isinstance(prev, ast.If) and not prev.orelse and norm(prev.test) == f"{link} is not None" and prev.body and isinstance(prev.body[-1], ast.Return) \
+                                and norm(prev.body[-1].value) == link:
+                            governed = True
+                    if isinstance(par, ast.If) and ((fld == "orelse" and norm(par.test) == f"{link} is not None") or (fld == "body" and norm(par.test) == f"{link} is None")):
+                        governed = True
+            if par is g.node:
+                break
+            child, par = par, getattr(par, "_parent", None)
+        ctx.check("R10", f"Value.graph: `{norm(r)[:60]}` is answered only when the ownership link is unset", governed, g, r,
+                  f"`{norm(r)[:70]}` can be the answer of Value.graph while `{link}` is set: the graph that lists the value as its input, output or initializer "
+                  "is then not the graph the value reports - an output of a subgraph that is produced in the enclosing graph names the enclosing graph, "
+                  "is_graph_output() is True, and it is in neither graph's outputs according to its own link",
+                  how="returns of Value.graph other than the link itself are governed by `self._graph is None` (guard clause returning the link, or the branch)",
+                  construct="Value.graph answers before consulting the ownership link")
+    ctx.ob("R10", f"Value.graph: {n} fallback answer(s), each given only when `_graph` is None", True, nontrivial=False) if n == 0 else None
+    ctx.require(any(isinstance(x, ast.Attribute) and x.attr == "_graph" for x in ast.walk(g.node)), "Value.graph does not read the ownership link `_graph`")
+
+
 def run(ctx):
     from ..shared import rule_s17
+
+    rule_r10(ctx)
 
     rule_s17(ctx, "R9", lambda f: f.module.name in ("onnx_ir._core", "onnx_ir._graph_containers", "onnx_ir._linked_list", "onnx_ir._convenience", "onnx_ir._name_authority"),
              "the bookkeeping of the other elements is left half-updated", floor=40)
